@@ -327,6 +327,7 @@ fn run_history(rng: &mut Rng, mode: &str, _k: usize) -> String {
         Op(u64),
         Text(usize, String, bool),
         Tick(u64, u64),
+        Restart(bool),
     }
     let mut script: std::collections::VecDeque<Sc> = std::collections::VecDeque::new();
     if pool == 1 && rng.chance(1, 2) {
@@ -357,8 +358,33 @@ fn run_history(rng: &mut Rng, mode: &str, _k: usize) -> String {
         }
         script.push_back(Sc::Tick(0, 0));
     }
+    // another scripted prefix: a populated snapshot, restart (mostly without clearing), items for the new stream, a tick whose
+    // run is parked before it does anything, an edit, and a second holding tick (which cancels the parked run over the new
+    // stream and parks its successor): the snapshot must stay entirely the old stream's until a run over the new one completes
+    else if rng.chance(1, 3) {
+        script.push_back(Sc::Op(0));
+        for _ in 0..(3 + rng.below(4)) {
+            script.push_back(Sc::Op(4));
+        }
+        let first = ["f", "o", "b", "a", ""][rng.below(5) as usize].to_string();
+        script.push_back(Sc::Text(0, first.clone(), false));
+        script.push_back(Sc::Tick(0, 0));
+        script.push_back(Sc::Restart(rng.chance(1, 4)));
+        script.push_back(Sc::Op(0));
+        for _ in 0..(2 + rng.below(4)) {
+            script.push_back(Sc::Op(4));
+        }
+        script.push_back(Sc::Tick(1, 0));
+        match rng.below(3) {
+            0 => script.push_back(Sc::Text(0, format!("{first}{}", ["o", "a", "r", "b"][rng.below(4) as usize]), true)),
+            1 => script.push_back(Sc::Text(0, ["ba", "z", "o"][rng.below(3) as usize].to_string(), false)),
+            _ => script.push_back(Sc::Op(4)),
+        }
+        script.push_back(Sc::Tick(1, 0));
+    }
     let mut force_text: Option<(usize, String, bool)> = None;
     let mut force_tick: Option<(u64, u64)> = None;
+    let mut force_clear: Option<bool> = None;
     for _ in 0..(nops + script.len()) {
         let nf0 = h.notify.load(Ordering::SeqCst);
         let run_parked = h.gates.parked.load(Ordering::SeqCst);
@@ -371,6 +397,10 @@ fn run_history(rng: &mut Rng, mode: &str, _k: usize) -> String {
             Some(Sc::Tick(hold, k)) => {
                 force_tick = Some((hold, k));
                 15
+            }
+            Some(Sc::Restart(c)) => {
+                force_clear = Some(c);
+                18
             }
             None => rng.below(20),
         };
@@ -537,11 +567,14 @@ fn run_history(rng: &mut Rng, mode: &str, _k: usize) -> String {
                 }
                 eprintln!("EV-START tick hold={hold}");
                 h.gates.want_hold.store(hold != 0, Ordering::SeqCst);
+                let spawned_before = h.gates.spawned.load(Ordering::SeqCst);
                 let st = h.nucleo.tick(if hold != 0 || run_parked { 15 } else { 3000 });
                 h.gates.want_hold.store(false, Ordering::SeqCst);
-                // a run spawned with a hold flag that has not reached its gate yet: wait until it parks
+                // a run spawned with a hold flag that has not reached its gate yet: wait until it parks (a tick that spawned
+                // nothing -- its lock attempt timed out on a run parked earlier -- has nothing to wait for)
                 let t0 = std::time::Instant::now();
                 while hold != 0
+                    && h.gates.spawned.load(Ordering::SeqCst) != spawned_before
                     && (h.gates.hold_run.load(Ordering::SeqCst) || h.gates.hold_end.load(Ordering::SeqCst) || h.gates.hold_item.load(Ordering::SeqCst) != 0)
                     && h.gates.spawned.load(Ordering::SeqCst) != h.gates.run_ended.load(Ordering::SeqCst)
                     && t0.elapsed() < Duration::from_secs(5)
@@ -560,7 +593,7 @@ fn run_history(rng: &mut Rng, mode: &str, _k: usize) -> String {
                 h.record(format!("tick:{}:{}:{}:{}={}{}", kind, run_parked as u8, parked_now as u8, mid_k, st.changed as u8, st.running as u8), nf0, true);
             }
             18 => {
-                let clear = rng.chance(1, 2);
+                let clear = force_clear.take().unwrap_or_else(|| rng.chance(1, 2));
                 h.nucleo.restart(clear);
                 h.generation += 1;
                 h.record(format!("restart:{}", clear as u8), nf0, true);
